@@ -206,8 +206,10 @@ fn main() {
             let count = arg_u64(2, 1000); let mut rng = Rng::new(arg_u64(3, 0));
             print_unicode(&mut w);
             let mut stats = (0u64, 0u64, 0u64);
-            for (_, x, text) in WITNESSES.iter() { if x.is_empty() || extras { tv_line(text, &mut w, &mut stats); } }
-            for text in PROBES.iter() { tv_line(text, &mut w, &mut stats); }
+            if arg(4) != "nofixed" {
+                for (_, x, text) in WITNESSES.iter() { if x.is_empty() || extras { tv_line(text, &mut w, &mut stats); } }
+                for text in PROBES.iter() { tv_line(text, &mut w, &mut stats); }
+            }
             for _ in 0..count { let g = gen_c02(&mut rng, extras); tv_line(&pest_grammar(&g), &mut w, &mut stats); }
             writeln!(w, "#SUMMARY\tevaluations={}\tdistinct_nontrivial={}\trejected={}", stats.0, stats.2, stats.1).unwrap();
         }
